@@ -173,6 +173,7 @@ def native_run(sylt, files, timeout=20):
         out = r.stdout + r.stderr
         if "panicked" in out or r.returncode not in (0, 1): return "panic", dt, out[-400:]
         if r.returncode == 1 and "error" not in out.lower(): return "silent_failure", dt, out[-200:]
+        if r.returncode == 0 and not os.path.exists(os.path.join(d, "out.lua")): return "silent_failure", dt, "exit status 0 but no output was written (an empty error list?) " + out[-120:]
         if dt > timeout: return "timeout", dt, ""
         return "ok", dt, ""
     finally: shutil.rmtree(d, ignore_errors=True)
@@ -202,6 +203,9 @@ def native_part(art, tier, stats, fnd):
                         ("cyclic_import", {"main.sy": "use a\nstart :: fn do end\n", "a.sy": "use b\nx :: 1\n", "b.sy": "use a\ny :: 2\n"}),
                         ("conflicting_names", {"main.sy": "use a\nuse b as a\nstart :: fn do end\n", "a.sy": "x :: 1\n", "b.sy": "x :: 2\n"}),
                         ("error_on_a_line_longer_than_65535_columns", {"main.sy": "start :: fn do\n    x := \"" + "a" * 70000 + "\" )\nend\n"}), ("loop_directly_before_end_of_enclosing_block", {"main.sy": "start :: fn do\n    if true do loop false do 1 end end\nend\n"}),
+                        ("global_initialised_from_itself", {"main.sy": "a :: a + 1\nstart :: fn do end\n"}), ("global_list_containing_itself", {"main.sy": "retries :: [retries, 3]\nstart :: fn do end\n"}),
+                        ("mutable_global_initialised_from_itself_in_a_branch", {"main.sy": "x := if true do x else 0 end\nstart :: fn do end\n"}), ("global_initialised_from_itself_in_an_import", {"main.sy": "use a\nstart :: fn do end\n", "a.sy": "v :: v * 2\n"}),
+                        ("two_globals_initialised_from_each_other", {"main.sy": "a :: b\nb :: a\nstart :: fn do end\n"}),
                         ("empty_file", {"main.sy": ""}), ("no_trailing_newline", {"main.sy": "start :: fn do end"}), ("only_comment", {"main.sy": "// nothing"}), ("nul_byte", {"main.sy": "start :: fn do\n\0\nend\n"})]:
         st, dt, out = native_run(art["sylt"], files); n += 1
         if st != "ok": fnd.report("native-%s:%s" % (st, name), "%s: %s %s" % (name, st, out.replace("\n", " ")[-200:]), files)
